@@ -1,22 +1,89 @@
 package main
 
 // Property → rules. The explanation states which clauses of the property are decided and which
-// are not (DESIGN.md section 3 and 5).
+// are not (DESIGN.md sections 3 and 5).
 
 var stdTrust = []string{
-	"go/packages + go/types + go/ssa (x/tools v0.29.0) model the program faithfully",
-	"the standard-library routines jennifer calls behave as documented (fmt, strconv, sort, go/format, bytes.Buffer)",
+	"go/packages + go/types + go/ssa (x/tools v0.29.0) model the program faithfully; the four packages type-check",
+	"the standard-library routines jennifer calls behave as documented (fmt, strconv, sort, go/format, bytes.Buffer, regexp)",
+	"decided: structural necessary conditions on every syntactic path of /repo's current source; NOT decided: value-level behaviour over unbounded inputs (see not_decided)",
 }
 
 func prop(id string, rules []string, explanation, notDecided string, extra ...string) {
 	properties[id] = &Property{ID: id, Rules: rules, Explanation: explanation, NotDecided: notDecided, Assumptions: append(append([]string{}, stdTrust...), extra...)}
 }
 
+// frozen minimum obligation counts per rule (vacuity guard): measured on the tree the rules were
+// confirmed against by hand, with slack for harmless restructuring.
+var frozenMin = map[string]int{
+	"P-API-FORMS": 600, "P-ATOMIC-WRITE": 9, "P-CLONE": 2, "P-COMMENT": 7, "P-CTOR": 9, "P-DICT": 16, "P-ERR-PROP": 55,
+	"P-FILERENDER-ORDER": 18, "P-FORMAT-GATE": 10, "P-FRAGMENT": 7, "P-GROUPRENDER": 18, "P-IMPORTBLOCK": 13, "P-ISNULL": 13,
+	"P-LITCTOR": 12, "P-LOCALDOT": 3, "P-MAPRANGE": 7, "P-NILGUARD": 10, "P-REGISTER": 12, "P-RENDERITEMS": 20, "P-STMTRENDER": 11,
+	"P-TAG": 6, "P-TOKEN": 7, "P-VALIDALIAS": 4, "T-CONSTRUCTS": 280, "T-GENNAMES": 4, "T-KEYWORDS": 70, "T-LITFMT": 44,
+	"T-REGEX": 4, "T-RESERVED": 66, "T-STDHINTS": 160, "T-TOKCONTENT": 50, "W-CALLBACK": 90, "W-FS-EFFECTS": 3, "W-GLOBALS-RO": 3,
+	"W-IMPORTS-WRITERS": 9, "W-ISNULL-PURE": 6, "W-NO-CONCURRENCY": 3, "W-NONDET-API": 2, "W-PANICS": 6, "W-REGISTER-CALLERS": 2,
+	"W-RENDER-STORES": 20,
+}
+
 func init() {
-	prop("C08", []string{"W-RENDER-STORES", "W-IMPORTS-WRITERS", "P-REGISTER", "P-FRAGMENT"},
-		"Structural necessary conditions of repeatable rendering, decided on every path: (1) nothing reachable from any render / isNull implementation or render entry point stores to memory that existed before the call, except new File.imports entries made by the registration function (mod-ref summaries over the module call graph); (2) File.imports is never reset, deleted from or re-assigned; (3) the registration function returns the stored name for a known path before consulting hints (first registration wins); (4) fragment renders use the caller's File.",
-		"byte equality of successive renders also relies on the determinism of fmt / go/format (trusted) and on C07's map-order clauses")
+	prop("C01", []string{"T-CONSTRUCTS", "T-KEYWORDS", "P-RENDERITEMS", "P-STMTRENDER", "P-GROUPRENDER", "P-TOKEN", "P-ISNULL"},
+		"Necessary conditions of faithful rendering, on every path: (a) every construct of the generated API emits exactly the delimiter / separator / keyword tokens Go's grammar has for it (independent grammar table, go/scanner, go/token, types.Universe; X and XFunc twins identical); (b) the generic renderer writes open, items, separators, trailing newline, close in that order and treats every list position after the first identically — there is no edge around a separator or an item render other than {nil/null item, first item, empty separator, not multi}, so arity 4, 40 and 4,000 take the same paths; (c) keyword / identifier / package tokens write their text, `default` always gets its colon, a Block after Case / Default drops its braces exactly then.",
+		"that arbitrary compositions re-parse to the original tree (depends on go/format and go/parser over all programs); literal values (C11/C12)")
+	prop("C02", []string{"P-FORMAT-GATE", "P-ATOMIC-WRITE", "P-ERR-PROP", "W-PANICS", "T-TOKCONTENT", "P-NILGUARD"},
+		"No success path to the caller's writer avoids format.Source (File.Render: unless NoFormat); the formatter runs once on the private buffer and both modes draw from the same buffer; a formatter error is returned, never written as if valid; the only explicit panic reachable from Render / RenderWithFile / Save is the documented one for unsupported Lit types; token type assertions and item dereferences in the renderer cannot fail. Validity of the bytes then follows from format.Source's contract (trusted).",
+		"that every syntactically invalid composition makes the formatter fail (a property of go/parser)")
+	prop("C03", []string{"P-REGISTER", "P-VALIDALIAS", "P-TOKEN", "P-IMPORTBLOCK", "W-REGISTER-CALLERS"},
+		"Import bookkeeping decided on every path of the registration function (path enumeration, loop unrolled twice): no alias ⇒ the stored name is the raw hint or standard-library name; guessed or modified names ⇒ alias; checked = stored = returned; first registration wins; the collision test sees every entry; the qualifier written by a package token is the registered name; the import line prints that same entry's name and path, with an alias iff flagged.",
+		"that names supplied by the user through ImportName are truthful")
+	prop("C04", []string{"W-IMPORTS-WRITERS", "W-REGISTER-CALLERS", "W-ISNULL-PURE", "P-RENDERITEMS", "P-STMTRENDER", "P-DICT", "P-FILERENDER-ORDER", "P-IMPORTBLOCK", "P-CTOR"},
+		"Only the registration function and Anon add entries to File.imports (hints never do); registration is called only while a package token is rendered or pre-registered by the list renderer; null tests are pure and cannot register; an item judged nil / null is never rendered (list renderers, Dict pairs); the body is rendered before the import block is printed and nothing registers afterwards; the block is printed from the table's keys.",
+		"exactly-once per path additionally relies on map keys being unique (language guarantee)")
+	prop("C05", []string{"T-RESERVED", "P-VALIDALIAS", "P-REGISTER", "T-REGEX"},
+		"The reserved-word predicate is a pure membership test over a table containing all 25 keywords and all universe-scope identifiers of the analysing toolchain (exhaustive); the validity predicate rejects reserved words and every already registered name; the name entered in the table is the very string that passed that test (with or without PackagePrefix); guessed names consist of ASCII letters / digits, are never empty and never start with a digit.",
+		"whether a user-supplied PackagePrefix is itself a legal identifier")
+	prop("C06", []string{"P-LOCALDOT", "P-ISNULL", "P-VALIDALIAS", "P-REGISTER", "P-RENDERITEMS"},
+		"isLocal is exact string equality; isDotImport is exactly hints[path] = {\".\", alias}; a package token is null exactly for dot-imported or local paths; \".\" is accepted as a name unconditionally and first; prefix / numbering never touch a name not known to differ from \".\"; the list renderer registers every package token before its null test, so a dot import is still emitted.",
+		"resolution of the bare identifier by the Go compiler")
+	prop("C07", []string{"P-MAPRANGE", "W-NONDET-API", "P-TAG"},
+		"Every range over a map in jen has only order-insensitive effects (updates keyed by the range key, collected slices sorted before any other read, no output / registration / concatenation inside the loop) and nothing in jen consults a clock, randomness, the environment or formats an address. One known finding on the pinned tree: Dict.render renders keys (and thereby registers imports) inside its map range.",
+		"determinism of sort / fmt / go/format themselves; the order among Dict pairs whose keys render identically")
+	prop("C08", []string{"W-RENDER-STORES", "W-IMPORTS-WRITERS", "P-REGISTER", "P-FRAGMENT", "P-GROUPRENDER"},
+		"Nothing reachable from any render / isNull implementation or render entry point stores to memory that existed before the call, except new File.imports entries made by the registration function (mod-ref summaries over the module call graph); File.imports is never reset, deleted from or re-assigned; the registration function returns the stored name for a known path before consulting hints; fragment renders use the caller's File; the brace-less case-block form is chosen per render from local copies.",
+		"byte equality of successive renders additionally relies on C07's clauses and on the determinism of the standard library")
 	prop("C09", []string{"W-GLOBALS-RO", "W-NO-CONCURRENCY", "W-RENDER-STORES", "W-NONDET-API"},
-		"No hidden global state: every package-level variable of jen is only read (no store, map update, element store or address escape), jen uses no goroutines, channels, sync, atomic, unsafe or reflect, and every store in the render path goes to the writer, fresh memory or the File's own import table — so Files that share no Code values touch disjoint memory.",
-		"data-race freedom inside the standard library is taken from its documentation; the builder API mutating a shared Code value from two goroutines is outside the property")
+		"No hidden global state: every package-level variable of jen is only read (no store, map update, element store or address escape), jen uses no goroutines, channels, sync, atomic, unsafe or reflect, and every store on the render path goes to the writer, fresh memory or the File's own import table — so Files that share no Code values touch disjoint memory and a File's output depends on that File alone.",
+		"data-race freedom inside the standard library (taken from its documentation); two goroutines mutating one shared Code value through the builder API")
+	prop("C10", []string{"P-ATOMIC-WRITE", "P-ERR-PROP", "W-FS-EFFECTS", "P-FORMAT-GATE"},
+		"In all five exported methods with an io.Writer parameter the caller's writer is touched only by a single sink outside any loop, unreachable from the failure edge of every fallible call, delivering the formatter's result or the private buffer unmodified; the writer is never handed to the internal renderer; every error-returning call in jen has its error tested and returned (or panicked with) on every path; File.Save touches the file system only after Render into a fresh buffer succeeded and writes exactly that buffer.",
+		"the behaviour of os.WriteFile on partial writes")
+	prop("C11", []string{"T-LITFMT", "P-LITCTOR", "W-CALLBACK", "W-PANICS"},
+		"The literal type switch covers exactly the 17 documented types; each is formatted by a verb of the right class — bare only for the default type of its constant kind (bool, string, int, float64, complex128), all other numeric types wrapped in a conversion; the argument is the token's content and the constructor stored its parameter (or the callback's result) unmodified; the result reaches the writer unmodified, except that a float64 gets \".0\" exactly when its text has neither '.' nor 'e'; unsupported types panic (documented).",
+		"that fmt prints a shortest round-tripping decimal for every value (a property of strconv over 2^64 values)")
+	prop("C12", []string{"T-LITFMT", "P-LITCTOR", "T-TOKCONTENT"},
+		"String literals are produced only by Go-syntax quoting (%#v / %q), rune literals only by strconv.QuoteRune* / %q, byte literals only as byte(<numeric or quoted value>); the argument is the token's content, stored unmodified by the constructor, and nothing post-processes the quoted text before the single write.",
+		"that strconv quoting is the inverse of the Go scanner for every byte string")
+	prop("C13", []string{"P-NILGUARD", "P-RENDERITEMS", "P-STMTRENDER", "P-ISNULL", "P-GROUPRENDER"},
+		"Every method call on an item drawn from a user-supplied collection is dominated by a nil test of that very value, and pointers obtained from a Code by type assertion are nil-checked before use; in both list renderers a nil or null item produces no output and no separator on any path and every other item is rendered with its separator iff an item was rendered before (no extra condition on position or arity); null-ness is the recursive conjunction with Null() a null token and Empty() a non-null empty token; an all-null type list renders nothing.",
+		"what go/format does with the remaining text")
+	prop("C14", []string{"P-API-FORMS", "T-CONSTRUCTS", "W-CALLBACK", "P-FRAGMENT", "P-LITCTOR"},
+		"For all 120 constructs (enumerated from the type-checked *Statement method set at check time): a package function and a *Group method with the same parameters exist; the function form is the Statement method applied to a new statement with the same arguments; the Group form builds the statement from the same arguments, appends it to the group exactly once on every path and returns it; the Statement form appends in place and returns its receiver; X and XFunc build identical groups. All 79 callback parameters are invoked exactly once, synchronously, on every normal path, never stored / captured / deferred / spawned, and nothing reachable from render / isNull calls a function value. GoString, Render and RenderWithFile(new File) are the same renderer.",
+		"byte equality of the rendered forms for every argument list (follows from the delegation shape, not separately evaluated)")
+	prop("C15", []string{"P-COMMENT", "P-GROUPRENDER", "P-RENDERITEMS", "T-CONSTRUCTS", "P-CTOR", "P-FILERENDER-ORDER"},
+		"comment.render chooses line style only for text without a newline and block style exactly otherwise, always closes a block comment and never writes the text bare; in every multi-line group (Block, Defs, Struct, Interface, case bodies, the File itself — checked on the construct table and the constructors) a newline precedes each item and, whenever items were rendered, the close token — on every path, with no condition on separator or arity; File.Render writes headers, a blank line exactly if there are headers, package comments, the package clause, `// import %q` exactly if CanonicalPath is set. Containment then follows from Go's lexical rule that a // comment ends at the next newline.",
+		"go/format's re-flowing of comments")
+	prop("C16", []string{"P-DICT", "P-MAPRANGE@(jen.Dict)@!registration function", "P-NILGUARD@(jen.Dict)", "P-RENDERITEMS@Dict"},
+		"A Dict pair is collected iff key and value are both non-nil and non-null, as an element holding its own key and value (no container keyed by rendered text); the collected slice is sorted before it is read; the emission loop writes key, colon, value of the same element and the comma-newline / leading newline exactly when there are several pairs; Dict.isNull is true iff no pair has both sides live; a Dict next to other Values items is an error.",
+		"the relative order of pairs whose keys render to the same text")
+	prop("C17", []string{"P-TAG", "P-MAPRANGE@(jen.tag)", "P-ISNULL@(jen.tag)"},
+		"tag.render writes each pair as key:\"value\" with the value through %q and the value looked up under the printed key, pairs from the sorted key slice joined by exactly one space; the literal is back-quoted only under strconv.CanBackquote and otherwise produced by strconv.Quote; an empty tag is null.",
+		"the round trip through reflect.StructTag for every value (a property of %q and reflect)")
+	prop("C18", []string{"T-STDHINTS", "P-REGISTER", "T-GENNAMES"},
+		"Every entry of the standard-library table whose package is importable equals the package clause parsed from GOROOT/src of the installed toolchain (exhaustive over the table); a table hit may be stored without alias, a guessed name never; gennames reads the go-list fields back from the positions its template wrote them to and emits path: name.",
+		"the output of actually running gennames (it shells out to `go list`); packages newer than the table get a guessed alias, which the property allows")
+	prop("C19", []string{"P-REGISTER", "P-IMPORTBLOCK", "P-FILERENDER-ORDER"},
+		"The \"C\" branch of registration stores {\"C\", no alias} and returns C; hint lookup, prefix and numbering happen only on paths with path ≠ \"C\"; no import line prints an alias for \"C\"; \"C\" is left out of the main block only when a preamble exists; each preamble comment is followed by exactly one newline and `import \"C\"` is written directly after the last one, after the main block.",
+		"cgo's own parsing of the preamble")
+	prop("C20", []string{"P-CLONE", "P-API-FORMS"},
+		"Clone returns a freshly allocated statement whose slice has a fresh backing array (never the original's slice header or a re-slice of it); every builder method appends in place to its own receiver and returns it, so appends to a clone cannot reach the original's backing array and vice versa.",
+		"nothing further: for this property the structural condition is also sufficient")
 }
